@@ -163,7 +163,10 @@ def stats(impl):
 
 
 if __name__ == "__main__":
-    import gen
+    import gen, subprocess
+    # always compare against /repo's current working tree
+    subprocess.run("cargo build --release --offline -q 2>&1 | tail -3", shell=True, cwd=os.path.join(os.path.dirname(os.path.dirname(os.path.abspath(__file__))), "harness"),
+                   env=dict(os.environ, CARGO_NET_OFFLINE="true"))
     profile = sys.argv[1]
     count = int(sys.argv[2])
     seed = int(sys.argv[3]) if len(sys.argv) > 3 else 1
